@@ -73,9 +73,12 @@ class Run:
             s = sched.Sched(self.chooser, max_events=30000)
             sched.PENDING_SCHED[0] = s
             logger = sched.make_logger()
-            snk = sched.TracingSink("s0")
-            hid = logger.add(snk, enqueue=True, context=sched.FakeContext(), format="{message}", catch=False,
-                             colorize=False)
+            fail = set(prog.get("fail", ()))
+            snk = sched.FailingSink("s0", lambda text: text in fail) if fail else sched.TracingSink("s0")
+            hid = logger.add(snk, enqueue=True, context=sched.FakeContext(), format="{message}",
+                             catch=bool(prog.get("catch", False)), colorize=False)
+            err = sched.TracingStderr()
+            self.fork_results = []
             h0 = logger._core.handlers[hid]
             object.__getattribute__(h0, "_lock").tag = "h@0"
             loggers = {0: logger}
@@ -106,6 +109,10 @@ class Run:
                                 lg.info("%s-%d" % (tn, j))
                             elif op[0] == "complete":
                                 lg.complete()
+                            elif op[0] == "fork":
+                                from harness import c02
+                                res = c02.emulated_fork(s, {hid: snk}, streams=[err])
+                                self.fork_results.append((tn, res))
                             elif op[0] == "remove":
                                 try:
                                     lg.remove(hid)
@@ -124,11 +131,13 @@ class Run:
             for w in list(s.daemons):
                 sched.PIDS[w] = 1000
             sched.CUR[0] = s
+            import contextlib
             try:
-                s.go(timeout=30.0)
+                with contextlib.redirect_stderr(err):
+                    s.go(timeout=30.0)
             finally:
                 sched.CUR[0] = None
-            self.sched, self.sink, self.ops = s, snk, ops_log
+            self.sched, self.sink, self.ops, self.stderr = s, snk, ops_log, err
         return self
 
 
